@@ -6,6 +6,7 @@ SimLoop, with a second session reading back immediately after the uploader got
 its completion reply.  E1: a subset under every schedule with <= d deviations
 (incl. re-segmentation of the control and data streams).  DESIGN.md §5 C01.
 """
+import asyncio
 import itertools
 import json
 
@@ -72,6 +73,8 @@ def run_case(case, chooser):
     bk = {"memory": dict(backend="memory"), "slow": dict(backend="slow", delay=0.125),
           "pathio": dict(backend="pathio"), "async": dict(backend="async")}[case["backend"]]
     skw = {"block_size": b, "wait_future_timeout": 5}
+    if case.get("socket_timeout"):
+        skw["socket_timeout"] = case["socket_timeout"]
     thr = case.get("throttle")
     if thr == "server-read":
         skw["read_speed_limit"] = 64
@@ -123,12 +126,20 @@ def run_case(case, chooser):
                         pos += ln
                         if observer and n_chunk == 0:
                             await observe(c2, path)
+                        if case.get("pause") and n_chunk == 0:
+                            # the uploader goes quiet for longer than the server's socket_timeout, then carries on
+                            await asyncio.sleep(case["pause"])
                 result["completed"] = True
-            except a.StatusCodeError as exc:
+            except (a.StatusCodeError, ConnectionError) as exc:
                 result["completed"] = False
                 result["error"] = repr(exc)[:200]
             chooser.active = False
-            if result["completed"]:
+            if result["completed"] or case.get("pause"):
+                if not result["completed"]:
+                    # the upload was given up by the server (no completion reply): nothing to read back through c1's eyes
+                    c1.close()
+                    c2.close()
+                    return
                 # completion reply received: every later download/stat/listing reflects the new content
                 async with c2.download_stream(path) as st:
                     result["readback"] = await st.read()
@@ -169,7 +180,8 @@ def run_case(case, chooser):
                 if want is None:
                     pass
                 elif not result.get("completed"):
-                    problems.append({"kind": "upload-refused", "error": result.get("error")})
+                    if not case.get("pause"):
+                        problems.append({"kind": "upload-refused", "error": result.get("error")})
                 else:
                     stored = snap.get("/" + target)
                     if stored != want:
@@ -271,6 +283,14 @@ def grid(tier):
             c = {"op": op, "target": target, "n": 7, "k": k, "b": 3, "chunks": [4, 3], "readsize": 2,
                  "backend": backend, "window": 1 if backend == "slow" else 65536}
             items.append((c, d if backend == "memory" else 1, kinds, 3000 if tier == "quick" else 60000))
+    # an upload that stalls for longer than the server's socket_timeout and then goes on: either it fails (no 2xx
+    # completion) or what is stored is the whole payload - never a 226 for a prefix
+    for backend in ("memory", "pathio"):
+        for op, target in (("STOR", "new"), ("APPE", "old"), ("STOR", "old")):
+            for st, pause in ((2, 3), (2, 1), (None, 3)):
+                c = {"op": op, "target": target, "n": 7, "k": 0, "b": 3, "chunks": [3, 2, 2], "backend": backend,
+                     "socket_timeout": st, "pause": pause}
+                items.append((c, 0, [], None))
     # another session looks at (stat / listings) or downloads the same file while the transfer is suspended half-way
     # (lock-step send window: every block is a network event)
     for backend in (["memory", "slow", "pathio"] if tier == "quick" else ["memory", "slow", "pathio", "async"]):
